@@ -8,7 +8,8 @@ closed set of callers of the mutable write path, that both the per-share and
 the per-request test verdicts are conjunctions over all their comparisons, and that
 the early size refusal and the write stage each visit every share the request names
 (the refusal: every write of it), that the early size refusal admits nothing the
-container refuses at write time (C24.12), and that the protocol front ends hand the
+container refuses at write time (C24.12), that no share is created in a bucket directory an earlier step of the same
+request removed (C24.13), and that the protocol front ends hand the
 test stage the client's own test vectors (C24.11, adopted from C23.9).
 DESIGN.md section 5, C24."""
 from sa.h import *
@@ -54,16 +55,29 @@ EXPLANATION = (
     "callee parameters bound to the call's arguments), the conditions that hold on every path to it - as linear inequalities over "
     "the write's offset and data length with MAX_SIZE / DATA_OFFSET folded to their numbers, conditions on the share's state dropped - "
     "contain one that implies every condition of some path to the early raise inside the loop over all writes of all shares (only "
-    "len(data) >= 0 is assumed); i.e. nothing the up-front check admits is refused while the request is being applied.  "
+    "len(data) >= 0 is assumed); i.e. nothing the up-front check admits is refused while the request is being applied; an early refusal written with a "
+    "quantifier - `if any(cond for .. in vectors for .. in datav): raise` / `if not all(..): raise`, generator or list form - is "
+    "analysed by (8) and (12) as the loop nest it abbreviates (comprehension-local names renamed where they collide); "
+    "(13) the bucket directory while the request is applied: a typestate of the directory (unknown / exists / probed absent or "
+    "not needed / removed by this request) is carried along every path from slot_testv_and_readv_and_writev through every "
+    "storage-package callee the directory is handed to (per-function summaries), and no call that creates a file under "
+    "os.path.join(directory, ..) (an open-for-writing effect) is reached in the state 'removed by an earlier step of this request' "
+    "without an ensure step (fileutil.make_dirs, os.makedirs(exist_ok=True), a true isdir/exists probe) in between - that creation "
+    "raises FileNotFoundError after earlier shares were modified or deleted (seeded C24-I: make_dirs hoisted before the write loop "
+    "while the rmdir of the emptied directory stayed inside it) - and no create-once step (os.mkdir, os.makedirs without exist_ok, "
+    "outside a handler for OSError) is reached where the directory exists.  "
     "Undecided (explicit non-claim): that a write the up-front check refuses is really too large (no legal write is refused: "
     "C23.8); non-linear or chained size conditions (-> ANALYSIS-ERROR / treated as not about the write); that every iteration of the write stage applies its share's own vector, unlinks only under new_length == 0 and "
     "guards os.rmdir by emptiness (C23.5), and that writev applies every entry of the data vector (C23.4); which leases are "
     "renewed under renew_leases (C25); I/O errors (OSError) in the middle of the "
-    "write stage; exceptional paths inside check_testv (a raise aborts the request before any write); that the "
+    "write stage other than the two of (13); in (13): that fileutil.make_dirs is idempotent (taken by name), that a guard of an "
+    "ensure step which does not look at the filesystem (`if any(share will be allocated): make_dirs`) is right about which "
+    "requests need the directory (its other branch is read as 'not needed'), directories reached other than as an argument; exceptional paths inside check_testv (a raise aborts the request before any write); that the "
     "comparison operands are the share's data at (offset, length) and the entry's specimen (decided under C23.7); NoSpace from the lease step after all writes; interleaving with other requests; values compared.")
 TECHNIQUE = ("static analysis: CFG must-precede/guard rules, filesystem-effect summaries over the call graph, who-may-call, loop-coverage of "
              "the request's vectors, interprocedural path conditions as linear inequalities (implication between the early and the "
-             "write-time size refusal), provenance terms of the protocol front ends' arguments (adopted)")
+             "write-time size refusal), quantified refusals rewritten as loop nests, interprocedural typestate of the bucket directory "
+             "(summaries per callee), provenance terms of the protocol front ends' arguments (adopted)")
 
 MSF = "storage.mutable:MutableShareFile"
 SRV = "storage.server:StorageServer"
@@ -328,7 +342,7 @@ def vector_kind(fn, tv, e, depth=3):
         if isinstance(e, ast.Call) and isinstance(e.func, ast.Name) and e.func.id in _WRAPPERS and e.args \
                 and not isinstance(e.args[0], ast.Starred):
             e = e.args[0]
-        elif isinstance(e, ast.Call) and isinstance(e.func, ast.Attribute) and e.func.attr in ("items", "keys", "copy") \
+        elif isinstance(e, ast.Call) and isinstance(e.func, ast.Attribute) and e.func.attr in ("items", "keys", "values", "copy") \
                 and not e.args and not e.keywords:
             e = e.func.value
         else:
@@ -726,17 +740,25 @@ def share_component(fn, fnm, n, e, tw, loops):
     s = fnm.norm(n, e0)
     for L in reversed(loops):
         it = peel_vector(L.iter)[0]
-        items = isinstance(it, ast.Call) and isinstance(it.func, ast.Attribute) and it.func.attr == "items" and not it.args
+        view = it.func.attr if isinstance(it, ast.Call) and isinstance(it.func, ast.Attribute) and not it.args \
+            and it.func.attr in ("items", "values") else None
+        items = view == "items"
         t = L.target
-        key = t if isinstance(t, ast.Name) and not items else (
-            t.elts[0] if items and isinstance(t, ast.Tuple) and len(t.elts) == 2 and isinstance(t.elts[0], ast.Name) else None)
-        if key is None:
-            continue
-        for i in range(8):
-            if s == norm_src("%s[%s][%d]" % (tw, key.id, i)):
-                return L, i, whole
-        if items:
-            v = t.elts[1]
+        if view == "values":
+            # ``for vectors in tw.values()`` / ``for (testv, datav, new_length) in tw.values()``: no key is bound
+            if vector_kind(fn, tw, it.func.value) is None:
+                continue
+            key = None
+        else:
+            key = t if isinstance(t, ast.Name) and not items else (
+                t.elts[0] if items and isinstance(t, ast.Tuple) and len(t.elts) == 2 and isinstance(t.elts[0], ast.Name) else None)
+            if key is None:
+                continue
+            for i in range(8):
+                if s == norm_src("%s[%s][%d]" % (tw, key.id, i)):
+                    return L, i, whole
+        if view:
+            v = t.elts[1] if items else t
             if isinstance(v, ast.Name):
                 for i in range(8):
                     if s == norm_src("%s[%d]" % (v.id, i)):
@@ -766,6 +788,120 @@ def iteration_avoiding(cfg, head, gate_node, gate_edge=None):
         if st == "END":
             return witness(cfg, par, (nid, st))
     return None
+
+
+# ------------------------------------------------- quantified refusals as loops
+class _Rename(ast.NodeTransformer):
+    def __init__(self, mapping):
+        self.mapping = mapping
+
+    def visit_Name(self, node):
+        if node.id in self.mapping:
+            node.id = self.mapping[node.id]
+        return node
+
+
+def _quantified_refusal(st):
+    """``if any(E for ..): <..; raise>`` / ``if not all(E for ..): <..; raise>`` -> (comprehension, negate E?) or None.
+    Only a body that cannot complete normally is accepted: then the statement means the same as the nested loops
+    ``for ..: if E: <..; raise>`` (the body runs at most once either way)."""
+    if not isinstance(st, ast.If) or st.orelse or not st.body or not isinstance(st.body[-1], ast.Raise):
+        return None
+    if any(isinstance(x, (ast.For, ast.While, ast.Try, ast.With, ast.If)) for x in st.body):
+        return None
+    t, neg = st.test, False
+    while isinstance(t, ast.UnaryOp) and isinstance(t.op, ast.Not):
+        t, neg = t.operand, not neg
+    if not (isinstance(t, ast.Call) and isinstance(t.func, ast.Name) and t.func.id in ("any", "all") and len(t.args) == 1
+            and not t.keywords and isinstance(t.args[0], (ast.GeneratorExp, ast.ListComp, ast.SetComp))):
+        return None
+    if (t.func.id == "all") != neg:
+        return None                   # `if all(..): raise` / `if not any(..): raise` are not existential refusals
+    comp = t.args[0]
+    if any(g.is_async for g in comp.generators):
+        return None
+    return comp, neg
+
+
+def loops_for_quantifiers(fn):
+    """A refusal written with a quantifier over the request - ``if any(cond for .. in vectors for .. in datav): raise`` -
+    is the same loop nest as the statement form.  -> (function to analyse, {id(original ast node): node in it}); the
+    function itself when it holds no such statement.  Names the comprehension binds live in its own scope: where one
+    collides with a parameter or another binding of the function it is renamed in the loop form."""
+    if not any(_quantified_refusal(x) for x in func_own_nodes(fn)):
+        return fn, None
+    import copy
+    memo = {}
+    node = copy.deepcopy(fn.node, memo)
+    taken = set(fn.params)
+    counter = [0]
+
+    def stored_outside(root, skip):
+        out = {}
+        inside = {id(x) for x in ast.walk(skip)}
+        for x in ast.walk(root):
+            if isinstance(x, ast.Name) and isinstance(x.ctx, (ast.Store, ast.Del)) and id(x) not in inside:
+                out[x.id] = out.get(x.id, 0) + 1
+        return out
+
+    class T(ast.NodeTransformer):
+        def visit_FunctionDef(self, n):
+            if n is node:
+                self.generic_visit(n)
+            return n
+        visit_AsyncFunctionDef = visit_FunctionDef
+
+        def visit_Lambda(self, n):
+            return n
+
+        def visit_If(self, st):
+            self.generic_visit(st)
+            q = _quantified_refusal(st)
+            if q is None:
+                return st
+            comp, neg = q
+            bound = set()
+            for g in comp.generators:
+                bound |= bound_names(g.target)
+            other = stored_outside(node, comp)
+            clash = {b for b in bound if b in taken or b in other}
+            if clash:
+                counter[0] += 1
+                ren = _Rename({b: "%s_q%d" % (b, counter[0]) for b in clash})
+                first = comp.generators[0].iter      # evaluated in the enclosing scope
+                comp.generators[0].iter = ast.Constant(value=None)
+                ren.visit(comp)
+                comp.generators[0].iter = first
+            elt = comp.elt
+            cond = ast.UnaryOp(op=ast.Not(), operand=elt) if neg else elt
+            ast.copy_location(cond, elt)
+            inner = ast.If(test=cond, body=st.body, orelse=[])
+            ast.copy_location(inner, st)
+            stmt = inner
+            for g in reversed(comp.generators):
+                for c in reversed(g.ifs):
+                    stmt = ast.copy_location(ast.If(test=c, body=[stmt], orelse=[]), st)
+                stmt = ast.copy_location(ast.For(target=g.target, iter=g.iter, body=[stmt], orelse=[], type_comment=None), st)
+            return stmt
+    T().visit(node)
+    ast.fix_missing_locations(node)
+    g = FuncInfo(fn.module, node, fn.qual, fn.cls, fn.parent)
+    g.nested = dict(fn.nested)
+    return g, memo
+
+
+def as_loops(cand):
+    """(function, vectors parameter, raise node) with quantified refusals of the function spelled as loops."""
+    vf, vtw, rn = cand
+    g, memo = loops_for_quantifiers(vf)
+    if g is vf:
+        return cand
+    want = memo.get(id(rn.ast))
+    hit = [m for m in g.cfg().nodes if is_raise(m) and m.ast is want]
+    if len(hit) != 1:
+        raise AnalysisError("%s: the refusal '%s' is not found again after spelling the quantified checks as loops" % (
+            short(vf), src(vf, rn.ast)))
+    return (g, vtw, hit[0])
 
 
 def data_loop_of(vf, vcfg, vnm, vtw, rn):
@@ -1102,6 +1238,210 @@ class LateRefusals:
                     a.startswith("~") for a in v[1].atoms()))}
                 for (facts, _t) in sorted(arr[nid], key=lambda x: sorted(map(str, x[0]))):
                     self.enter(h, b2, facts, chain + (g.qual,))
+
+
+# ------------------------------------------------- the bucket directory while a request is applied (C24.13)
+DIR_ENSURE_IDEMPOTENT = {"fileutil.make_dirs", "fileutil.make_dirs_with_absolute_mode"}
+DIR_CREATE_ONCE = {"os.mkdir", "os.makedirs"}
+DIR_REMOVE = {"os.rmdir", "os.removedirs", "shutil.rmtree", "fileutil.rm_dir", "fileutil.rmtree"}
+DIR_PROBES = ("os.path.isdir", "os.path.exists", "os.path.lexists")
+
+
+class BucketDirState:
+    """Typestate of ONE directory along every path of a request: U (nothing known), E (exists: it was ensured, probed
+    present, or a file was just created in it), N (probed absent, or the guard of an ensure step decided that it is not
+    needed) and R (removed by a step of this same request).  The call chain is followed through the storage package
+    wherever the directory is handed on as an argument (the callee's parameter then stands for it); per function a
+    summary {state on entry -> states on return} is computed.  Reported: a file created inside the directory in state R
+    (nothing re-created it: the creation fails with FileNotFoundError) and a create-once step (os.mkdir / os.makedirs
+    without exist_ok) in state E (FileExistsError).  Either aborts the write stage in the middle of a request."""
+
+    def __init__(self, r, fx):
+        self.r, self.fx = r, fx
+        self.memo, self.stack, self.reported = {}, [], set()
+        self.sites = {"create": {}, "ensure": {}, "remove": {}}
+        self.states = 0
+
+    # -- what one call does to the directory `dn` (a normal form valid in fn)
+    def denotes(self, fnm, n, e, dn):
+        return e is not None and not isinstance(e, ast.Starred) and fnm.norm(n, e) == dn
+
+    def inside(self, fnm, n, e, dn):
+        if e is None or isinstance(e, ast.Starred):
+            return False
+        s = fnm.norm(n, e)
+        return s.startswith("os.path.join(%s," % dn)
+
+    def classify(self, fn, fnm, n, c, dn):
+        """-> list of ops of call c: ('ensure'|'once'|'remove'|'create', call) or ('call', call, callee, its parameter)."""
+        name = call_name(c)
+        args = list(c.args) + [k.value for k in c.keywords]
+        a0 = c.args[0] if c.args else None
+        if self.denotes(fnm, n, a0, dn):
+            if name in DIR_ENSURE_IDEMPOTENT:
+                return [("ensure", c)]
+            if name in DIR_CREATE_ONCE:
+                eo = kwarg(c, "exist_ok") if name == "os.makedirs" else None
+                if eo is None and name == "os.makedirs" and len(c.args) >= 3:
+                    eo = c.args[2]
+                if isinstance(eo, ast.Constant) and eo.value is True:
+                    return [("ensure", c)]
+                return [("once", c)]
+            if name in DIR_REMOVE:
+                return [("remove", c)]
+        out = []
+        if any(self.inside(fnm, n, a, dn) for a in args):
+            eff = self.fx.call_effects(fn, c)
+            if any("open(.." in e for e in eff):
+                out.append(("create", c))
+        for g in self.fx.callees(fn, c):
+            if not g.module.name.startswith(STORAGE_PREFIX):
+                continue
+            ps = first_positional_params(g)
+            got = [ps[i] for i, a in enumerate(c.args) if i < len(ps) and self.denotes(fnm, n, a, dn)]
+            got += [k.arg for k in c.keywords if k.arg in g.params and self.denotes(fnm, n, k.value, dn)]
+            if len(got) == 1:
+                out.append(("call", c, g, got[0]))
+            elif got:
+                raise AnalysisError("%s: '%s' hands the directory to %s more than once" % (short(fn), src(fn, c), short(g)))
+        return out
+
+    def probe(self, fnm, n, lab, dn):
+        f = fnm.edge_fact(n, lab)
+        if f is None or f[0] not in ("truth", "false") or f[2] is not None:
+            return None
+        if f[1] in tuple("%s(%s)" % (p, dn) for p in DIR_PROBES):
+            return "E" if f[0] == "truth" else "N"
+        return None
+
+    def caught(self, cfg, n):
+        for (d, l) in cfg.succ[n.id]:
+            h = cfg.nodes[d]
+            if l == "exc" and h.kind == "except":
+                t = h.ast.type
+                names = [None] if t is None else [attr_path(x) for x in (t.elts if isinstance(t, ast.Tuple) else [t])]
+                if any(x in (None, "OSError", "FileExistsError", "EnvironmentError", "IOError", "Exception", "BaseException")
+                       for x in names):
+                    return True
+        return False
+
+    def summary(self, fn, dn, s_in):
+        """-> (states on normal return, {(kind, function, ast node)}: faults that entering in state s_in leads to)."""
+        key = (fn.qual, dn, s_in)
+        if key in self.memo:
+            return self.memo[key]
+        if key in self.stack or len(self.stack) > 12:
+            raise AnalysisError("%s: recursive / too deep call chain while following the bucket directory" % short(fn))
+        self.stack.append(key)
+        try:
+            out = self._explore(fn, dn, s_in, root=False)
+        finally:
+            self.stack.pop()
+        self.memo[key] = out
+        return out
+
+    def _explore(self, fn, dn, s_in, root):
+        cfg = fn.cfg()
+        fnm = FlowNorm(fn)
+        if not root and any(isinstance(x, ast.Name) and x.id == dn and isinstance(x.ctx, (ast.Store, ast.Del)) for x in func_own_nodes(fn)):
+            raise AnalysisError("%s: the parameter '%s' that stands for the bucket directory is re-bound" % (short(fn), dn))
+        ops = {}
+        for n in cfg.nodes:
+            if n.kind in ("entry", "exit", "raise") or n.ast is None:
+                continue
+            lst = []
+            for c in node_calls(n):
+                lst.extend(self.classify(fn, fnm, n, c, dn))
+            if len(lst) > 1:
+                raise AnalysisError("%s: '%s' acts on the bucket directory more than once in one statement" % (short(fn), src(fn, n.ast)))
+            if lst:
+                ops[n.id] = lst[0]
+                kind = "ensure" if lst[0][0] == "once" else lst[0][0]
+                if kind in self.sites:
+                    self.sites[kind][(fn.qual, id(lst[0][1]))] = (fn, lst[0][1])
+        # a test that decides whether the directory gets ensured: the other branch means "not needed"
+        guards = set()
+        for n in cfg.nodes:
+            if n.kind == "test" and not any(isinstance(x, ast.Call) and call_name(x).split(".")[0] in ("os", "fileutil", "shutil")
+                                            for x in ast.walk(n.ast)):
+                for (d, l) in cfg.succ[n.id]:
+                    if l != "exc" and ops.get(d, ("",))[0] in ("ensure", "once"):
+                        guards.add(n.id)
+        s0 = (cfg.entry.id, (s_in, root))
+        visited, parent, work = {s0}, {s0: None}, [s0]
+        outs, faults = set(), set()
+        i = 0
+
+        def fault(kind, where_fn, node, cur, local, how):
+            if not local:
+                faults.add((kind, where_fn, node, how))
+                return
+            k = (fn.qual, kind, where_fn.qual, id(node))
+            if k in self.reported:
+                return
+            self.reported.add(k)
+            w = witness(cfg, parent, cur)
+            n = cfg.nodes[cur[0]]
+            at = "" if where_fn is fn else " (in %s: %s)" % (short(where_fn), src(where_fn, node))
+            if kind == "create":
+                msg = ("%s: '%s'%s creates a share file in the bucket directory after an earlier step of the same request "
+                       "removed that directory%s and nothing re-created it on this path: the creation fails (FileNotFoundError) "
+                       "in the middle of the write stage, after earlier shares were already modified or deleted (path: %s)" % (
+                           short(fn), src(fn, n.ast), at, how, w.brief()))
+            else:
+                msg = ("%s: '%s'%s creates the bucket directory with a call that fails when it already exists, and on this "
+                       "path it exists%s: FileExistsError in the middle of the write stage, after earlier shares were "
+                       "already modified (path: %s)" % (short(fn), src(fn, n.ast), at, how, w.brief()))
+            self.r.violation(fn, fn.loc(n.ast), msg, w)
+        while i < len(work):
+            cur = work[i]
+            i += 1
+            nid, (st, local) = cur
+            n = cfg.nodes[nid]
+            if n.kind == "exit":
+                outs.add(st)
+                continue
+            if n.kind == "raise" or is_raise(n):
+                continue
+            nexts = [(st, local)]
+            op = ops.get(nid)
+            if op is not None:
+                kind = op[0]
+                if kind == "ensure":
+                    nexts = [("E", True)]
+                elif kind == "once":
+                    if st == "E" and not self.caught(cfg, n):
+                        fault("once", fn, op[1], cur, local, "")
+                    nexts = [("E", True)]
+                elif kind == "remove":
+                    nexts = [("R", True)]
+                elif kind == "create":
+                    if st == "R":
+                        fault("create", fn, op[1], cur, local, "")
+                    nexts = [("E", True)]
+                elif kind == "call":
+                    _k, c, g, p = op
+                    g_outs, g_faults = self.summary(g, p, st)
+                    for (fk, ff, fnode, _how) in sorted(g_faults, key=lambda x: (x[0], x[1].qual, getattr(x[2], "lineno", 0))):
+                        fault(fk, ff, fnode, cur, local, "")
+                    nexts = [(o, local or o != st) for o in sorted(g_outs)]
+            for (d, lab) in cfg.succ[nid]:
+                if lab == "exc":
+                    continue
+                for (s2, l2) in nexts:
+                    if n.kind == "test":
+                        pr = self.probe(fnm, n, lab, dn)
+                        if pr is not None and not (pr == "N" and s2 == "R"):
+                            s2, l2 = pr, (l2 if pr == s2 else True)
+                        elif nid in guards and ops.get(d, ("",))[0] not in ("ensure", "once") and s2 == "R":
+                            s2 = "N"
+                    nxt = (d, (s2, l2))
+                    if nxt not in visited:
+                        visited.add(nxt)
+                        parent[nxt] = (cur, lab)
+                        work.append(nxt)
+        self.states += len(visited)
+        return outs, faults
 
 
 # -------------------------------------------------------------------- rules
@@ -1637,6 +1977,7 @@ def run(ctx: Context):
                 if not cands:
                     raise AnalysisError("%s: the early raise of %s is not a raise statement of this function or of a directly "
                                         "called helper that is given %s" % (short(fn), name, tw8))
+                cands = [as_loops(c) for c in cands]
                 di = data_index()
                 agree[name] = (cands, di, late)
                 verdicts, errors = [], []
@@ -1784,6 +2125,26 @@ def run(ctx: Context):
                             "middle of the write stage, after earlier shares of the same request were modified" % (
                                 short(g), name, (cond + " (conditions on the share's own state aside)") if cond else
                                 "a condition holds that is not about the write's offset and length", gap, up))
+
+    # -- 13. the bucket directory is there whenever a share is created in it ------------------
+    with ctx.rule("C24.13", "R10", "while one request is applied, no share file is created in the bucket directory on a path "
+                  "where an earlier step of the same request removed that directory and nothing re-created it, and no "
+                  "create-once mkdir runs where the directory already exists: either raises in the middle of the write "
+                  "stage (the call chain is followed wherever the directory is handed on)", expected=3) as r:
+        mon = BucketDirState(r, fx)
+        bdir13 = fnm.norm(coll_n, arg(coll_c, 0, "bucketdir"))
+        mon._explore(slot, bdir13, "U", root=True)
+        r.count(mon.states)
+        for kind, what in (("create", "creates a share file in the bucket directory"), ("ensure", "makes sure the bucket directory exists"),
+                           ("remove", "removes the bucket directory")):
+            for (_q, _i), (f_, c_) in sorted(mon.sites[kind].items(), key=lambda x: (x[0][0], getattr(x[1][1], "lineno", 0))):
+                r.site(f_, c_, what)
+        if not mon.sites["create"]:
+            raise AnchorVanished("no step of slot_testv_and_readv_and_writev (call chain followed) is recognised as creating a "
+                                 "share file inside the bucket directory")
+        if not mon.sites["ensure"]:
+            raise AnchorVanished("no step of slot_testv_and_readv_and_writev (call chain followed) is recognised as creating "
+                                 "the bucket directory")
 
     # -- 11. what the test stage is given is what the client sent ----------------------------
     # The guard of (1) is only as good as the vectors it evaluates: a protocol front end that rebuilds a test vector with
